@@ -136,7 +136,7 @@ HelperEnabled ==
     \/ \E k \in DOMAIN st.iv :
         \/ RelReserveEn(st, k) \/ FioAwaitInitEn(st, k) \/ FioInitFailedEn(st, k) \/ FioShutdownEn(st, k) \/ FioShutdownDoneEn(st, k)
         \/ FioFastInvokeEn(st, k) \/ FiiStartEn(st, k) \/ FiiDefaultErrorEn(st, k) \/ FiiSendDoneEn(st, k)
-        \/ RelAwaitEn(st, k) \/ RelAfterResetEn(st, k)
+        \/ RelAwaitEn(st, k) \/ RelAfterResetEn(st, k) \/ RelOnceWaitEn(st, k)
     \* ... and so are polls that have been released: the handler goroutine renders at once
     \/ \E c \in DOMAIN st.calls : WakeEn(st, c)
 
@@ -171,6 +171,8 @@ OtherInternal ==
             \/ Step(RelAfterResetEn(st, k), RelAfterResetDo(st, k))
             \/ Step(MainGotResultEn(st, k), MainGotResultDo(st, k))
             \/ Step(MainAfterResetEn(st, k), MainAfterResetDo(st, k))
+            \/ Step(MainOnceWaitEn(st, k), MainOnceWaitDo(st, k))
+            \/ Step(RelOnceWaitEn(st, k), RelOnceWaitDo(st, k))
             \/ Step(MainAfterTimeoutEn(st, k), MainAfterTimeoutDo(st, k))
        \/ \E x \in DOMAIN st.rs :
             /\ ResetMayStep
